@@ -91,6 +91,27 @@ pub fn run_case(ctx: &mut CaseCtx) -> CaseResult {
         if link.is_some() { "symlink" } else { "-" },
     ));
     flw::install_virtual(t0);
+    // the configured link may exist already when the logger starts: left behind by an earlier
+    // run (its target purged meanwhile: dangling), or pointing somewhere else
+    let mut link_before = "-";
+    if let Some(l) = &link {
+        match ctx.case % 4 {
+            0 => {
+                let _ = std::os::unix::fs::symlink(cfg.names.dir.join("gone_2001-01-01.log"), l);
+                link_before = "dangling";
+            }
+            1 => {
+                let other = ctx.dir.join("something_else.txt");
+                let _ = std::fs::write(&other, b"not a log file\n");
+                let _ = std::os::unix::fs::symlink(&other, l);
+                link_before = "elsewhere";
+            }
+            _ => {}
+        }
+    }
+    if link_before != "-" {
+        res.count(&format!("cases_with_{link_before}_link_at_start"), 1);
+    }
     let mut driver = match Driver::build(&cfg) {
         Ok(d) => d,
         Err(e) => {
